@@ -97,6 +97,7 @@ type frameInfo struct {
 }
 
 type trackStream struct {
+	codec  byte // 'a' Opus, 'v' VP8, 'h' H.264, '9' VP9
 	video  bool
 	rate   uint32
 	frames []frameInfo
@@ -104,6 +105,9 @@ type trackStream struct {
 }
 
 type streamOpts struct {
+	codec     byte // 'h' H.264, '9' VP9; otherwise VP8 (video) or Opus
+	split     bool // H.264: access units spread over several non-FU packets (N5)
+	audFirst  bool // H.264: every keyframe aggregate starts with an AUD or SEI
 	video     bool
 	nframes   int
 	startSeq  uint16
@@ -147,9 +151,13 @@ func vp8Descriptor(style int, first bool, pid uint16) []byte {
 }
 
 func genStream(r *tr.Rand, o streamOpts) *trackStream {
-	s := &trackStream{video: o.video, rate: 48000}
+	if o.codec == 'h' || o.codec == '9' {
+		return genStreamOther(r, o)
+	}
+	s := &trackStream{video: o.video, rate: 48000, codec: 'a'}
 	if o.video {
 		s.rate = 90000
+		s.codec = 'v'
 	}
 	seq := o.startSeq
 	uts := int64(o.startTs)
@@ -253,6 +261,241 @@ func genStream(r *tr.Rand, o streamOpts) *trackStream {
 			} else {
 				step = uint32(r.Pick(1, 8, 1)+1) * 480 // 10, 20 or 30 ms
 			}
+		}
+		uts += int64(step)
+	}
+	return s
+}
+
+// ---- H.264 and VP9 publishers
+
+func annexb(nals [][]byte) []byte {
+	var out []byte
+	for _, n := range nals {
+		out = append(out, 0, 0, 0, 1)
+		out = append(out, n...)
+	}
+	return out
+}
+
+func stapA(nals [][]byte) []byte {
+	out := []byte{0x78}
+	for _, n := range nals {
+		out = append(out, byte(len(n)>>8), byte(len(n)))
+		out = append(out, n...)
+	}
+	return out
+}
+
+// fuA fragments one NAL unit into FU-A packets of at most mtu payload bytes
+// (at least two fragments).
+func fuA(nal []byte, mtu int) [][]byte {
+	ind := (nal[0] & 0x60) | 28
+	typ := nal[0] & 0x1f
+	body := nal[1:]
+	if mtu > (len(body)+1)/2 {
+		mtu = (len(body) + 1) / 2
+	}
+	if mtu < 1 {
+		mtu = 1
+	}
+	var out [][]byte
+	for off := 0; off < len(body); off += mtu {
+		end := off + mtu
+		if end > len(body) {
+			end = len(body)
+		}
+		hdr := typ
+		if off == 0 {
+			hdr |= 0x80
+		}
+		if end == len(body) {
+			hdr |= 0x40
+		}
+		out = append(out, append([]byte{ind, hdr}, body[off:end]...))
+	}
+	return out
+}
+
+func nalOf(r *tr.Rand, hdr byte, lo, hi int, tag int) []byte {
+	b := append([]byte{hdr}, r.Bytes(r.Range(lo, hi))...)
+	if len(b) >= 5 {
+		b[1], b[2], b[3] = byte(tag>>8), byte(tag), 0xC3
+	}
+	return b
+}
+
+// h264Frame returns the NAL units of access unit i and its RTP payloads.
+// The keyframe shapes are those that occur in practice:
+//   one packet:  STAP-A [SPS PPS IDR], STAP-A [AUD SPS PPS IDR], STAP-A [SEI SPS PPS IDR]
+//   split (N5):  SPS, PPS, IDR as single NAL unit packets (IDR possibly FU-A);
+//                STAP-A [SPS PPS] then FU-A IDR; AUD, then one of these
+func h264Frame(r *tr.Rand, o streamOpts, i int, kf bool) ([][]byte, [][]byte) {
+	var nals, payloads [][]byte
+	aud := []byte{0x09, 0xf0}
+	sei := append([]byte{0x06, 0x05}, r.Bytes(r.Range(2, 12))...)
+	if kf {
+		sps := nalOf(r, 0x67, 3, 24, i)
+		pps := nalOf(r, 0x68, 2, 6, i)
+		if !o.split {
+			idr := nalOf(r, 0x65, 1, 900, i)
+			shape := r.Pick(3, 3, 1)
+			if o.audFirst && shape == 0 {
+				shape = 1 + r.Intn(2)
+			}
+			switch shape {
+			case 0:
+				nals = [][]byte{sps, pps, idr}
+			case 1:
+				nals = [][]byte{aud, sps, pps, idr}
+			default:
+				nals = [][]byte{sei, sps, pps, idr}
+			}
+			return nals, [][]byte{stapA(nals)}
+		}
+		idr := nalOf(r, 0x65, 4, 4000, i)
+		if r.Chance(1, 3) {
+			nals = append(nals, aud)
+			payloads = append(payloads, aud)
+		}
+		nals = append(nals, sps, pps, idr)
+		if r.Bool() {
+			payloads = append(payloads, sps, pps)
+		} else {
+			payloads = append(payloads, stapA([][]byte{sps, pps}))
+		}
+		if len(idr) <= o.mtu && r.Bool() {
+			payloads = append(payloads, idr)
+		} else {
+			payloads = append(payloads, fuA(idr, o.mtu)...)
+		}
+		return nals, payloads
+	}
+	hdr := byte(0x41)
+	if r.Bool() {
+		hdr = 0x61
+	}
+	var slice []byte
+	switch r.Pick(4, 4, 2) {
+	case 0:
+		slice = nalOf(r, hdr, 1, 60, i)
+	case 1:
+		slice = nalOf(r, hdr, 61, 900, i)
+	default:
+		slice = nalOf(r, hdr, 901, 6000, i)
+	}
+	switch {
+	case o.split && r.Chance(1, 3):
+		nals = [][]byte{aud, slice}
+		payloads = [][]byte{aud}
+		if len(slice) <= o.mtu {
+			payloads = append(payloads, slice)
+		} else {
+			payloads = append(payloads, fuA(slice, o.mtu)...)
+		}
+	case len(slice) < 1000 && r.Chance(1, 4):
+		nals = [][]byte{aud, slice}
+		payloads = [][]byte{stapA(nals)}
+	case len(slice) <= o.mtu && len(slice) < 1300 && r.Chance(2, 3):
+		nals = [][]byte{slice}
+		payloads = [][]byte{slice}
+	default:
+		nals = [][]byte{slice}
+		if len(slice) < 3 {
+			payloads = [][]byte{slice}
+		} else {
+			payloads = fuA(slice, o.mtu)
+		}
+	}
+	return nals, payloads
+}
+
+// vp9Frame: non-flexible mode, one-byte payload descriptor (optionally with
+// a picture id), B on the first and E on the last packet, P on inter frames
+func vp9Frame(r *tr.Rand, o streamOpts, i int, kf bool) ([]byte, [][]byte) {
+	var size int
+	switch r.Pick(5, 4, 2) {
+	case 0:
+		size = r.Range(1, 40)
+	case 1:
+		size = r.Range(41, 400)
+	default:
+		size = r.Range(401, 5000)
+	}
+	data := r.Bytes(size)
+	if kf {
+		data[0] = 0x80 | (data[0] & 0x03)
+	} else {
+		data[0] = 0x84 | (data[0] & 0x03)
+	}
+	if size >= 6 {
+		data[1], data[2], data[3] = byte(i>>8), byte(i), 0x99
+	}
+	var payloads [][]byte
+	for off := 0; off < size; off += o.mtu {
+		end := off + o.mtu
+		if end > size {
+			end = size
+		}
+		d := byte(0)
+		if !kf {
+			d |= 0x40
+		}
+		if off == 0 {
+			d |= 0x08
+		}
+		if end == size {
+			d |= 0x04
+		}
+		var desc []byte
+		switch o.desc {
+		case 1:
+			desc = []byte{d | 0x80, byte(i & 0x7f)}
+		case 2:
+			desc = []byte{d | 0x80, 0x80 | byte((i>>8)&0x7f), byte(i)}
+		default:
+			desc = []byte{d}
+		}
+		payloads = append(payloads, append(desc, data[off:end]...))
+	}
+	return data, payloads
+}
+
+func genStreamOther(r *tr.Rand, o streamOpts) *trackStream {
+	s := &trackStream{video: true, rate: 90000, codec: o.codec}
+	seq := o.startSeq
+	uts := int64(o.startTs)
+	for i := 0; i < o.nframes; i++ {
+		var f frameInfo
+		f.uts = uts
+		f.ts = uint32(uts)
+		f.first = len(s.pkts)
+		f.kf = i == o.firstKf || (o.kfEvery > 0 && i > o.firstKf && (i-o.firstKf)%o.kfEvery == 0) || o.forceKfAt[i]
+		var payloads [][]byte
+		if o.codec == 'h' {
+			var nals [][]byte
+			nals, payloads = h264Frame(r, o, i, f.kf)
+			f.data = annexb(nals)
+		} else {
+			f.data, payloads = vp9Frame(r, o, i, f.kf)
+		}
+		for pos, pl := range payloads {
+			p := rtp.Packet{Header: rtp.Header{Version: 2, PayloadType: 102,
+				SequenceNumber: seq, Timestamp: f.ts, SSRC: 0x1234abcd,
+				Marker: pos == len(payloads)-1}, Payload: pl}
+			raw, err := p.Marshal()
+			if err != nil {
+				panic(err)
+			}
+			s.pkts = append(s.pkts, pktInfo{raw: raw, seq: seq, ts: f.ts,
+				frame: i, pos: pos, last: pos == len(payloads)-1})
+			seq++
+		}
+		f.n = len(payloads)
+		s.frames = append(s.frames, f)
+		step := o.tsStep
+		if step == 0 {
+			step = uint32(r.Pick(1, 6, 2)+1) * 1500
 		}
 		uts += int64(step)
 	}
@@ -465,6 +708,7 @@ type hist struct {
 		last  uint16
 	}
 	closeCmp bool
+	joinSplit bool // H.264 access units sent as several non-FU packets: blocks of equal timestamp are joined before comparing (N5)
 	noCmp    bool // the history leaves the domain of the model (conn.close() from inside the loop): ops are named swx/wx
 }
 
@@ -510,7 +754,21 @@ func newHist(t *tr.Trace, r *tr.Rand, name, kinds, exact, user string, streams [
 			ft.codec = webrtc.RTPCodecCapability{MimeType: "audio/opus", ClockRate: 48000, Channels: 2}
 		} else {
 			ft.kind = webrtc.RTPCodecTypeVideo
-			ft.codec = webrtc.RTPCodecCapability{MimeType: "video/VP8", ClockRate: 90000}
+			mime := "video/VP8"
+			switch k {
+			case 'v':
+				t.Note("codec-vp8")
+			case 'h':
+				t.Note("codec-h264")
+				mime = "video/H264"
+				h.closeCmp = false // the model does not depacketise H.264
+			case '9':
+				t.Note("codec-vp9")
+				mime = "video/VP9"
+				h.closeCmp = false
+				h.noCmp = true // VP9 is not modelled: monitors only
+			}
+			ft.codec = webrtc.RTPCodecCapability{MimeType: mime, ClockRate: 90000}
 		}
 		h.tracks = append(h.tracks, ft)
 		ut = append(ut, ft)
@@ -863,6 +1121,8 @@ func (h *hist) failFrame(kind, monitor, what, msg string) {
 	case (kind == "sound" || kind == "K1b") && what == "kfflag-cleared":
 		h.t.Note("N2 flag reproduced")
 		h.t.Fail("C20", "keyframe_N2", "N2 keyframe-overtaken-by-next-keyframe (backlog): "+msg)
+	case kind == "kfstart" && what == "missing":
+		h.t.Fail("C20", "recorded_from_first_keyframe", "the stream starts with a keyframe but the recording does not start there: "+msg)
 	case kind == "flush" && what == "missing":
 		h.t.Fail("C20", "flushed_on_close", "a complete frame that was waiting in the builder is not in the file after Close: "+msg)
 	case kind == "N3" && what == "ts":
@@ -882,8 +1142,12 @@ func (h *hist) check(kind string, files []fileInfo) {
 			t.Fail("C20", "container", fmt.Sprintf("%s does not parse as EBML: %v", fi.name, fi.err))
 			continue
 		}
-		if fi.doctype != "webm" {
-			t.Fail("C20", "container", "DocType "+fi.doctype)
+		wantDoc, ext := "webm", ".webm"
+		if strings.Contains(h.kinds, "h") {
+			wantDoc, ext = "matroska", ".mkv"
+		}
+		if fi.doctype != wantDoc {
+			t.Fail("C20", "container", "DocType "+fi.doctype+" for tracks "+h.kinds)
 		}
 		if len(fi.entries) != len(h.tracks) {
 			t.Fail("C20", "container", fmt.Sprintf("%d track entries for %d tracks", len(fi.entries), len(h.tracks)))
@@ -893,8 +1157,13 @@ func (h *hist) check(kind string, files []fileInfo) {
 				break
 			}
 			want, typ := "V_VP8", uint64(1)
-			if h.kinds[j] == 'a' {
+			switch h.kinds[j] {
+			case 'a':
 				want, typ = "A_OPUS", 2
+			case 'h':
+				want = "V_MPEG4/ISO/AVC"
+			case '9':
+				want = "V_VP9"
 			}
 			if e.CodecID != want || e.TrackType != typ || e.TrackNumber != uint64(j+1) {
 				t.Fail("C20", "container", fmt.Sprintf("track %d declared as %s type %d number %d", j, e.CodecID, e.TrackType, e.TrackNumber))
@@ -904,8 +1173,8 @@ func (h *hist) check(kind string, files []fileInfo) {
 			}
 		}
 		t.Checked("C20.filename")
-		base := strings.TrimSuffix(fi.name, ".webm")
-		okName := strings.HasSuffix(fi.name, ".webm") && !strings.ContainsAny(fi.name, "/\\")
+		base := strings.TrimSuffix(fi.name, ext)
+		okName := strings.HasSuffix(fi.name, ext) && !strings.ContainsAny(fi.name, "/\\")
 		if san != "" {
 			i := strings.Index(base, "-"+san)
 			okName = okName && i > 0
@@ -936,13 +1205,34 @@ func (h *hist) check(kind string, files []fileInfo) {
 		written := map[int]int{}
 		prev := -1
 		firstWritten := -1
+		nsplit, splitMsg := 0, ""
 		for fidx, fi := range files {
 			if fi.err != nil {
 				continue
 			}
 			prevTm := int64(-1)
 			firstInFile := true
-			for _, b := range fi.blocks {
+			blocks := fi.blocks
+			if h.joinSplit && s.codec == 'h' {
+				// N5: the parts of one access unit are written as separate
+				// blocks with the same timestamp; compare the joined blocks
+				blocks = nil
+				for _, b := range fi.blocks {
+					if int(b.track) != j+1 {
+						continue
+					}
+					if n := len(blocks); n > 0 && blocks[n-1].tm == b.tm && blocks[n-1].kf == b.kf {
+						blocks[n-1].data = append(append([]byte{}, blocks[n-1].data...), b.data...)
+						nsplit++
+						if splitMsg == "" {
+							splitMsg = fmt.Sprintf("timestamp %d: a block of %d bytes followed by a block of %d bytes", b.tm, len(blocks[n-1].data)-len(b.data), len(b.data))
+						}
+					} else {
+						blocks = append(blocks, b)
+					}
+				}
+			}
+			for _, b := range blocks {
 				if int(b.track) != j+1 {
 					continue
 				}
@@ -1024,6 +1314,33 @@ func (h *hist) check(kind string, files []fileInfo) {
 							j, which, f.ts, b.tm, rate/1000, h.origins[j]))
 					}
 				}
+			}
+		}
+		if h.joinSplit && s.codec == 'h' {
+			t.Checked("C20.h264_split_N5")
+			if nsplit > 0 {
+				t.Note("N5 reproduced")
+				shape := ""
+				for _, f := range s.frames {
+					if f.n > 1 {
+						var ts []string
+						for q := f.first; q < f.first+f.n && q < f.first+6; q++ {
+							pl := s.pkts[q].raw[12:]
+							typ := pl[0] & 0x1f
+							switch {
+							case typ == 24:
+								ts = append(ts, "STAP-A")
+							case typ == 28:
+								ts = append(ts, fmt.Sprintf("FU-A(%d)", pl[1]&0x1f))
+							default:
+								ts = append(ts, fmt.Sprintf("NAL(%d)", typ))
+							}
+						}
+						shape = strings.Join(ts, ",")
+						break
+					}
+				}
+				t.Fail("C20", "h264_split_N5", fmt.Sprintf("h264-access-unit-split: %d times an H.264 access unit sent as several packets (e.g. %s) is written as several blocks, each a part of the frame; %s", nsplit, shape, splitMsg))
 			}
 		}
 		if kind == "sound" || kind == "N1" || kind == "N3" {
@@ -1146,14 +1463,26 @@ func makeStreams(r *tr.Rand, t *tr.Trace, kinds string, vf, af int) []*trackStre
 		if k == 'a' {
 			out = append(out, genStream(r, aopts(r, t, af)))
 		} else {
-			out = append(out, genStream(r, vopts(r, t, vf)))
+			o := vopts(r, t, vf)
+			if k == 'h' || k == '9' {
+				o.codec = byte(k)
+				o.desc = r.Intn(3)
+				if o.mtu < 40 {
+					o.mtu = 40
+				}
+			}
+			out = append(out, genStream(r, o))
 		}
 	}
 	return out
 }
 
+// pickKinds: audio+video, video only, audio only; the video codec is VP8,
+// H.264 or VP9
 func pickKinds(r *tr.Rand) string {
-	return []string{"av", "v", "a"}[r.Pick(5, 3, 2)]
+	k := []string{"av", "v", "a"}[r.Pick(5, 3, 2)]
+	v := []string{"v", "h", "9"}[r.Pick(11, 6, 3)]
+	return strings.Replace(k, "v", v, 1)
 }
 
 // ntpOf: the sender's clock: NTP time n0 at RTP time ts0 of a track
@@ -1180,7 +1509,7 @@ func cleanHistory(t *tr.Trace, r *tr.Rand, name string) {
 			exact += "1"
 		case name == "sr-mid":
 			exact += "0"
-		case kinds[j] == 'v':
+		case kinds[j] != 'a':
 			exact += "1"
 		default:
 			exact += "0"
@@ -1346,6 +1675,68 @@ func soundHistory(t *tr.Trace, r *tr.Rand, name string) {
 	}
 	h.run(merge(r, plans...))
 	h.closeAndCheck("sound")
+	nontrivial(h)
+}
+
+// h264SplitHistory: the H.264 packetisations of browsers: parameter sets and
+// slices as separate single NAL unit packets, STAP-A [SPS PPS] followed by a
+// fragmented IDR, access unit delimiters.  In order (audio, if any, in
+// between).  N5: every such access unit is written as several blocks; all
+// other monitors run on the blocks joined by timestamp.
+func h264SplitHistory(t *tr.Trace, r *tr.Rand) {
+	kinds := []string{"h", "ah"}[r.Intn(2)]
+	var streams []*trackStream
+	if kinds == "ah" {
+		streams = append(streams, genStream(r, aopts(r, t, r.Range(8, 40))))
+	}
+	o := vopts(r, t, r.Range(4, 24))
+	o.codec = 'h'
+	o.split = true
+	if o.mtu < 40 {
+		o.mtu = 40
+	}
+	streams = append(streams, genStream(r, o))
+	exact := "1"
+	if kinds == "ah" {
+		exact = "01"
+	}
+	h := newHist(t, r, "h264-split", kinds, exact, users[r.Intn(len(users))], streams)
+	h.joinSplit = true
+	var plans [][]act
+	for j, s := range streams {
+		var p []act
+		for i := range s.pkts {
+			p = append(p, act{kind: aStoreWrite, track: j, pkt: i})
+		}
+		plans = append(plans, p)
+	}
+	h.run(merge(r, plans...))
+	h.closeCmp = false
+	h.closeAndCheck("complete")
+	nontrivial(h)
+}
+
+// h264AggHistory: an H.264 publisher whose keyframes are single aggregation
+// packets that start with an access unit delimiter or SEI before the SPS
+// (encoders that emit AUDs); in order.  The recording must start at the
+// first keyframe.
+func h264AggHistory(t *tr.Trace, r *tr.Rand) {
+	o := vopts(r, t, r.Range(4, 20))
+	o.codec = 'h'
+	o.audFirst = true
+	o.firstKf = 0
+	if o.mtu < 40 {
+		o.mtu = 40
+	}
+	s := genStream(r, o)
+	h := newHist(t, r, "h264-aud-first", "h", "1", users[r.Intn(len(users))], []*trackStream{s})
+	var plan []act
+	for i := range s.pkts {
+		plan = append(plan, act{kind: aStoreWrite, track: 0, pkt: i})
+	}
+	h.run(plan)
+	t.Checked("C20.recorded_from_first_keyframe")
+	h.closeAndCheck("kfstart")
 	nontrivial(h)
 }
 
@@ -1885,6 +2276,8 @@ func runDisk(t *tr.Trace, r *tr.Rand, n int) {
 	n1OldDup(t, r, true)
 	n2KfOvertaken(t, r, false)
 	n3SRShift(t, r)
+	h264AggHistory(t, r)
+	h264SplitHistory(t, r)
 	sanitiseHistory(t, r)
 	only := os.Getenv("VERIF_DISK_ONLY") // debugging aid: run one stream only
 	for hi := 0; hi < n; hi++ {
@@ -1902,6 +2295,10 @@ func runDisk(t *tr.Trace, r *tr.Rand, n int) {
 				malformedHistory(t, r)
 			case "flush":
 				flushHistory(t, r)
+			case "h264-split":
+				h264SplitHistory(t, r)
+			case "h264-aud-first":
+				h264AggHistory(t, r)
 			default:
 				cleanHistory(t, r, only)
 			}
@@ -1910,7 +2307,8 @@ func runDisk(t *tr.Trace, r *tr.Rand, n int) {
 		switch r.Pick(10, 12, 8, 14, 22, 4, 3, 3, // clean
 			6, 5, 2, 4, // sound
 			2, 1, 2, 1, 1, 1, // triggers
-			8) { // origin arithmetic
+			8, // origin arithmetic
+			3) { // N5
 		case 0:
 			cleanHistory(t, r, "inorder")
 		case 1:
@@ -1951,8 +2349,14 @@ func runDisk(t *tr.Trace, r *tr.Rand, n int) {
 			n2KfOvertaken(t, r, r.Chance(1, 3))
 		case 17:
 			n3SRShift(t, r)
-		default:
+		case 18:
 			timeHistory(t, r)
+		default:
+			if r.Bool() {
+				h264SplitHistory(t, r)
+			} else {
+				h264AggHistory(t, r)
+			}
 		}
 	}
 }
